@@ -48,6 +48,12 @@ const (
 	numKinds
 )
 
+// KBatch: a batch node (flyt.NewBatchNode builder) used as a member of flows. Its prep yields
+// len(Exec) items (0..3); every item is executed once, sequentially, in continue mode (the
+// defaults); item outcomes go to the result slots; post returns the scripted action. It is only
+// generated where a check opts in (wfGen.PBatch) and never by "all kinds" generators.
+const KBatch = 100
+
 // Style bits for KFunc.
 const (
 	SPrepAny  = 1 << iota // prep function is Any style (else Result style)
@@ -130,7 +136,7 @@ const HaltAction = "halt" // reserved, never connected by any generator
 
 func (l *LeafSpec) effN() int {
 	switch l.Kind {
-	case KPlain, KPlainFb:
+	case KPlain, KPlainFb, KBatch:
 		return 1
 	}
 	if l.N < 1 {
@@ -404,6 +410,7 @@ func errMatches(got, want error) string {
 type Ev struct {
 	Seq     int
 	Leaf    int
+	Batch   bool // the leaf is a batch node (KBatch): exec events are items, Attempt = item index
 	Visit   int
 	Phase   string // prep | exec | fb | post
 	Attempt int
@@ -506,6 +513,9 @@ func (x *wfExec) begin(ev Ev) int {
 	x.mu.Lock()
 	ev.Seq = len(x.trace)
 	ev.T0 = time.Since(x.t0)
+	if l := x.sc.Nodes[ev.Leaf].Leaf; l != nil && l.Kind == KBatch {
+		ev.Batch = true
+	}
 	x.trace = append(x.trace, ev)
 	seq := ev.Seq
 	x.mu.Unlock()
@@ -759,8 +769,37 @@ func (x *wfExec) buildLeaf(id int, l *LeafSpec) flyt.Node {
 		return &plainRetryFbLeaf{plainRetryLeaf{plainLeaf{x, id}, n, w}}
 	case KFunc:
 		return x.buildFuncLeaf(id, l, n, w)
+	case KBatch:
+		return x.buildBatchLeaf(id, l)
 	}
 	panic("unknown leaf kind")
+}
+
+func (x *wfExec) buildBatchLeaf(id int, l *LeafSpec) flyt.Node {
+	return flyt.NewBatchNode().
+		WithPrepFunc(func(ctx context.Context, s *flyt.SharedStore) ([]flyt.Result, error) {
+			if _, err := x.prep(ctx, id, s); err != nil {
+				return nil, err
+			}
+			x.mu.Lock()
+			visit := x.cur(id)
+			x.mu.Unlock()
+			items := make([]flyt.Result, len(l.script(visit).Exec))
+			for i := range items {
+				items[i] = flyt.NewResult(i)
+			}
+			return items, nil
+		}).
+		WithExecFunc(func(ctx context.Context, item flyt.Result) (flyt.Result, error) {
+			v, err := x.exec(ctx, id, item.Value(), item.IsError())
+			if err != nil {
+				return flyt.Result{}, err
+			}
+			return flyt.NewResult(v), nil
+		}).
+		WithPostFunc(func(ctx context.Context, s *flyt.SharedStore, items, results []flyt.Result) (flyt.Action, error) {
+			return x.post(ctx, id, s, len(items), len(results), false)
+		})
 }
 
 func (x *wfExec) buildFuncLeaf(id int, l *LeafSpec, n int, w time.Duration) flyt.Node {
@@ -993,6 +1032,13 @@ func (m *wfModel) leaf(i int, l *LeafSpec) (string, bool) {
 		m.out.EndEv = k
 		return "", false
 	}
+	if l.Kind == KBatch {
+		// every item is executed once; item outcomes go to the slots and never end the run
+		for a := range l.script(v).Exec {
+			m.emit(MEv{i, v, "exec", a})
+		}
+		return m.leafPost(i, v, l)
+	}
 	n := l.effN()
 	success := false
 	last := -1
@@ -1019,7 +1065,11 @@ func (m *wfModel) leaf(i int, l *LeafSpec) (string, bool) {
 			return "", false
 		}
 	}
-	k = m.emit(MEv{i, v, "post", 0})
+	return m.leafPost(i, v, l)
+}
+
+func (m *wfModel) leafPost(i, v int, l *LeafSpec) (string, bool) {
+	k := m.emit(MEv{i, v, "post", 0})
 	m.out.Path = append(m.out.Path, i)
 	if m.onPost != nil {
 		m.onPost()
